@@ -128,7 +128,11 @@ func compareAt(c *Case, q *seq.QPR, agg env.Agg, ai, n int) string {
 	if len(q.Aggs) != n {
 		return fmt.Sprintf("aggs len %d", len(q.Aggs))
 	}
-	res := q.Aggs[ai].Aggregate(env.AggArgs(agg))
+	return compareResult(c, q.Aggs[ai].Aggregate(env.AggArgs(agg)), agg)
+}
+
+// compareResult: one evaluated aggregation (as the proxy hands it to its clients) against the case's expectation
+func compareResult(c *Case, res seq.AggregationResult, agg env.Agg) string {
 	if res.NotExists != c.Exp.Agg.Ne {
 		return fmt.Sprintf("not-exists got %d exp %d", res.NotExists, c.Exp.Agg.Ne)
 	}
@@ -213,6 +217,7 @@ func runGroup(g []*Case) {
 		return
 	}
 	defer e.Close()
+	var api *env.API
 	docs := cases.EnvDocs(c.Corpus)
 	if *scaleExp != 0 {
 		for i := range docs {
@@ -236,11 +241,16 @@ func runGroup(g []*Case) {
 			e.Seal()
 		}
 	}
+	if api, err = env.NewAPI(e); err != nil {
+		emit(map[string]any{"infra": "public API: " + err.Error()})
+		return
+	}
+	defer api.Stop()
 	for _, c := range g {
 		if *progress {
 			emit(map[string]any{"begin": c.N})
 		}
-		runCase(e, c)
+		runCase(e, api, c)
 		if *progress {
 			emit(map[string]any{"end": c.N})
 		}
@@ -268,7 +278,7 @@ func runGroup(g []*Case) {
 			if *progress {
 				emit(map[string]any{"begin": a.N})
 			}
-			runPair(e, a, b)
+			runPair(e, api, a, b)
 			if *progress {
 				emit(map[string]any{"end": a.N})
 			}
@@ -295,7 +305,7 @@ func aggOf(c *Case) env.Agg {
 // runPair: two cases that ask the same query with different aggregations are also sent as ONE request carrying both
 // aggregations (in both orders): every aggregation of a request must equal its own reference, whatever else the
 // request asks for (state shared between the aggregations of a request, e.g. time-bin extraction, must not leak)
-func runPair(e *env.Env, a, b *Case) {
+func runPair(e *env.Env, api *env.API, a, b *Case) {
 	for _, ord := range [][2]*Case{{a, b}, {b, a}} {
 		aggs := []env.Agg{aggOf(ord[0]), aggOf(ord[1])}
 		p := env.Params{From: a.Q.From, To: a.Q.To, Limit: 10, Order: "desc", WithTotal: true, Interval: a.Q.Hist, Aggs: aggs}
@@ -315,10 +325,24 @@ func runPair(e *env.Env, a, b *Case) {
 					"case": json.RawMessage(ord[k].raw), "other": json.RawMessage(ord[1-k].raw)})
 			}
 		}
+		// the same request through the public API (ComplexSearch and GetAggregation): the conversion of the request's
+		// aggregation list and of the evaluated buckets is per aggregation
+		if !a.Q.AST.HasNand() {
+			for _, entry := range []string{"api-complex-search", "api-get-aggregation"} {
+				evals.Add(1)
+				whats := apiAsk(api, entry, ord[:], aggs)
+				for k := 0; k < 2; k++ {
+					if whats[k] != "" {
+						emit(map[string]any{"n": ord[k].N, "path": entry + "-two-aggs", "what": fmt.Sprintf("aggregation %d of 2 in one request (the other: %s interval %d): %s", k+1, aggs[1-k].Func, aggs[1-k].Interval, whats[k]),
+							"case": json.RawMessage(ord[k].raw), "other": json.RawMessage(ord[1-k].raw)})
+					}
+				}
+			}
+		}
 	}
 }
 
-func runCase(e *env.Env, c *Case) {
+func runCase(e *env.Env, api *env.API, c *Case) {
 	agg := aggOf(c)
 	p := env.Params{From: c.Q.From, To: c.Q.To, Limit: 10, Order: "desc", WithTotal: true, Interval: c.Q.Hist, Aggs: []env.Agg{agg}}
 	if len(c.Exp.Agg.Buckets) > 0 {
@@ -372,6 +396,10 @@ func runCase(e *env.Env, c *Case) {
 			report("proxy", "error: "+err.Error())
 		} else {
 			report("proxy", compare(c, q, agg))
+		}
+		// public API: request conversion (proxyapi), search, evaluation of the merged samples, response conversion
+		for _, entry := range []string{"api-complex-search", "api-get-aggregation"} {
+			report(entry, apiAsk(api, entry, []*Case{c}, []env.Agg{agg})[0])
 		}
 	}
 }
